@@ -150,6 +150,9 @@ func init() {
 		if r, ok := s.(rope); ok {
 			n := r.norm()
 			if len(n.parts) == 1 {
+				if _, ok := n.parts[0].(periodTok); ok {
+					return tuple{zero(timeType(fr)), newError(fr, "parsing time: a period is not a time")}
+				}
 				if tk, ok := n.parts[0].(timeTok); ok {
 					if tk.layout != layout {
 						return tuple{zero(timeType(fr)), newError(fr, "parsing time: layout mismatch")}
